@@ -101,7 +101,7 @@ CHECKS = {
          "formats, the shipped crashers and guard-directed constructions, with model/implementation agreement on statuses. Found and repaired on the way: c13e5b8, 004b113, a66a89b."
          " Also: make_decode_table's acceptance rule (model Huff.accepts) is compared with the three instantiations on the ten shapes their callers use, and the same code-length vectors are fed through MSZIP and KWAJ LZH streams; found and repaired: 797f74d (use-after-free after joining a multi-folder cabinet with a PREV_AND_NEXT entry)."
          " Memory safety is now a theorem on the decoder models: the out-of-bounds (null-dereference, shift-width, division, uninitialised-table) outcomes are unreachable for every input and every sequence of calls in the LZSS, KWAJ header, KWAJ LZH, MSZIP, LZX (under LenStable and stream position < 2^31) and Quantum decoders and in the CHM layer (readHeaders, fastFind: no fault at all; extract: only what the LZX decoder passes on)."
-         " CAB lift (C02CabLift): the feeder's own faults are only the two null dereferences of cabd_sys_read_block and none while it is live; Quantum/MSZIP folders have no oob/uninit/divZero/shiftWidth for every feeder state, stored folders no fault for any call sequence; the length announced to LZX is a read-closed invariant (LenStable over all feeder states is false, so the LZX lift is _partial: stated for the feeder with filtered announcements). MSZIP and Quantum folders: liveness threaded through the decoder (C02CabLift2, C02CabLift3) - no fault of any kind for any call sequence from a fresh folder state, no source hypothesis."),
+         " CAB lift (C02CabLift): the feeder's own faults are only the two null dereferences of cabd_sys_read_block and none while it is live; Quantum/MSZIP folders have no oob/uninit/divZero/shiftWidth for every feeder state, stored folders no fault for any call sequence; the length announced to LZX is a read-closed invariant (LenStable over all feeder states is false, so the LZX lift is _partial: stated for the feeder with filtered announcements). LZX folders: LenStable discharged on reachable states by a relational walk (C02CabLift4: no oob/nullDeref/divZero/shiftWidth for the real feeder; position < 2^31 remains). MSZIP and Quantum folders: liveness threaded through the decoder (C02CabLift2, C02CabLift3) - no fault of any kind for any call sequence from a fresh folder state, no source hypothesis."),
    note=PROOF_NOTE + " Sanitizers see heap/stack/global object bounds, not sub-object overflows inside one allocation.",
    technique="Lean 4 theorems on the block reader/feeder model + sanitizer-instrumented differential fuzzing of malformed inputs"),
  "C01": dict(category="proof",
